@@ -9,6 +9,7 @@ getters are idempotent; two sessions in parallel threads do not disturb each oth
 import json
 import os
 import random
+import re
 import sys
 
 from . import common as C
@@ -79,10 +80,56 @@ def sessions_for(res):
             if l1 != l2:
                 out.append(([["set_preference", "Language", l1], ["set_mathml", X.math(paren)], ["get_spoken_text"], ["do_navigate_command", "ZoomIn"],
                              ["set_preference", "Language", l2]], paren))
+    out += definition_probes(rng, tier)
     for body in RARE[3:6]:
         for k, vs in PREFS[4:6] + PREFS[:1]:
             for v in vs:
                 out.append(([["set_mathml", X.math(body)], ["get_spoken_text"], ["get_braille", ""], ["set_preference", k, v]], body))
+    return out
+
+
+def definitions_of(path):
+    """{name: set of quoted strings} of a definitions.yaml (a light reading: `- Name: [ ... ]` / `- Name: { ... }` blocks)"""
+    try:
+        text = C.read(path)
+    except OSError:
+        return {}
+    out = {}
+    for m in re.finditer(r"(?ms)^\s*-\s*([A-Za-z_]\w*)\s*:\s*([\[{].*?)(?=^\s*-\s*[A-Za-z_]\w*\s*:|\Z)", text):
+        block = re.sub(r"(?m)#.*$", "", m.group(2))
+        out.setdefault(m.group(1), set()).update(x for x in re.findall(r"\"([^\"\n]+)\"", block) if 0 < len(x) <= 12)
+    return out
+
+
+def definition_probes(rng, tier):
+    """histories that would show a definition of one language (or braille code) surviving the switch to another: for every
+    name and value that language A defines and language B does not, warm up in A with an expression built from the value
+    (as one token, and spelled letter by letter), switch to B, compare with a fresh B session"""
+    base = os.path.join(C.RULES, "Languages")
+    langs = [l for l in LANGS if "-" not in l]
+    defs = {l: definitions_of(os.path.join(base, l, "definitions.yaml")) for l in langs}
+    out = []
+    for a in langs:
+        for b in langs:
+            if a == b:
+                continue
+            cands = []
+            for name, vals in sorted(defs[a].items()):
+                only = sorted(vals - defs[b].get(name, set()))
+                if only:
+                    cands.append((name, only))
+            rng.shuffle(cands)
+            # names that the other language lacks altogether first
+            cands.sort(key=lambda c: c[0] in defs[b])
+            for name, only in cands[:3 if tier == "quick" else 12]:
+                v = rng.choice(only)
+                esc = "".join("&#x%X;" % ord(c) for c in v)
+                spelled = "".join("<mi>&#x%X;</mi>" % ord(c) for c in v if not c.isspace())
+                bodies = ["<mrow><mn>3</mn><mi>%s</mi><mo>+</mo><mi>%s</mi><mo>&#x2061;</mo><mi>x</mi></mrow>" % (esc, esc),
+                          "<mrow>%s<mo>=</mo><mn>2</mn></mrow>" % spelled]
+                for body in bodies:
+                    out.append(([["set_preference", "Language", a], ["set_mathml", X.math(body)], ["get_spoken_text"], ["get_braille", ""],
+                                 ["set_preference", "Language", b]], body))
     return out
 
 
